@@ -64,6 +64,7 @@ type Server struct {
 	Watches   int
 	WatchRVs  []string
 	ListTimes []int64
+	ListRVs   []int // server version at the snapshot of every successful list
 	Inflight  int
 	MaxFlight int
 }
@@ -141,6 +142,9 @@ func (s *Server) Objects() []metav1.Object {
 	return out
 }
 
+// Version0 reads the version without a scheduling point (call inside Atomic(s)).
+func (s *Server) Version0() int { return s.rv }
+
 func (s *Server) Version() int {
 	v := 0
 	vs.Atomic(s, func() { v = s.rv })
@@ -190,6 +194,9 @@ func (s *Server) List(ctx context.Context, opts metav1.ListOptions) (runtime.Obj
 	}
 	// the snapshot is taken when the (possibly slow) list completes on the server side
 	vs.Atomic(s, func() {
+		if f.Kind == "" {
+			s.ListRVs = append(s.ListRVs, s.rv)
+		}
 		snap = &corev1.PodList{ListMeta: metav1.ListMeta{ResourceVersion: strconv.Itoa(s.rv)}}
 		keys := make([]string, 0, len(s.objs))
 		for k := range s.objs {
